@@ -328,6 +328,8 @@ class T:
           return ("(zrange %s)" % args[0][0], "Z")
         if len(args) == 2:
           return ("(zrange2 %s %s)" % (args[0][0], args[1][0]), "Z")
+        if len(args) == 3:
+          return ("(zrange3 %s %s %s)" % (args[0][0], args[1][0], args[2][0]), "Z")
         raise TranslationError("range arity")
       if f == "enumerate" and len(it.args) == 1:
         l, tl = self.iterable(it.args[0])
@@ -397,6 +399,14 @@ class T:
       if t != "Z":
         raise TranslationError("abs type")
       return ("(Z.abs %s)" % s, "Z")
+    if f == "int" and len(n.args) == 1 and isinstance(n.args[0], ast.BinOp) and \
+        isinstance(n.args[0].op, ast.Div):
+      # int(a / b) on integers: true division then truncation toward zero (exact below 2^53)
+      a, ta = self.expr(n.args[0].left)
+      b, tb = self.expr(n.args[0].right)
+      if ta != "Z" or tb != "Z":
+        raise TranslationError("int(a / b) on %s, %s" % (ta, tb))
+      return ("(Z.quot %s %s)" % (a, b), "Z")
     if f == "int" and len(n.args) == 1:
       s, t = self.expr(n.args[0])
       if t != "Z":
